@@ -190,7 +190,7 @@ def check_case(doc, obs, tag='enum'):
                           doc, repr(e))
         if data is not None:
             obs.count('writer_bytes_checked', len(data))
-            if data != want:
+            if not common.bytes_equivalent(data, want, layout)[0]:
                 i = next((j for j in range(min(len(data), len(want)))
                           if data[j] != want[j]), min(len(data), len(want)))
                 sec = [s for s in layout if s['hoff'] <= i][-1]
@@ -205,10 +205,11 @@ def check_case(doc, obs, tag='enum'):
 
     # (c) writer -> reader agreement
     if data is not None and data != want:
-        _check_reader(data, expected, layout, doc, obs, 'writer_reader')
+        _check_reader(data, expected, layout, doc, obs, 'writer_reader',
+                      want)
 
 
-def _check_reader(data, expected, layout, doc, obs, label):
+def _check_reader(data, expected, layout, doc, obs, label, want=None):
     from pydiffx.reader import DiffXReader
     stream = MonitoredStream(data)
     gen = DiffXReader(stream).iter_sections()
@@ -244,7 +245,8 @@ def _check_reader(data, expected, layout, doc, obs, label):
             {'error': repr(exc), 'records_before': len(got),
              'encoding_stack_probe': probe_note})
         return
-    d = common.diff_records(expected, got)
+    d = common.diff_records(expected, got) if want is None else \
+        common.diff_records_tolerant(expected, got, data, want, layout)
     if d is not None:
         obs.violation('%s:%s' % (label, d[0]), doc,
                       dict(d[1], encoding_stack_probe=probe_note))
@@ -265,7 +267,10 @@ def _check_reader(data, expected, layout, doc, obs, label):
                 label, type(e).__name__), doc, repr(e)[:200])
             return
         obs.count('reiterations_compared')
-        d = common.diff_records(expected, again, ignore=('line',))
+        ign = ('line', 'length') if (
+            want is not None and data != want and
+            common.bytes_equivalent(data, want, layout)[0]) else ('line',)
+        d = common.diff_records(expected, again, ignore=ign)
         if d is not None:
             obs.violation('%s:second_iteration:%s' % (label, d[0]), doc,
                           d[1])
@@ -385,12 +390,16 @@ def check_with_rejected_calls(doc, obs, rng):
                     n_rej += 1
             getattr(w, name)(*a, **kw)
     except Exception as e:
+        if has_fileless_change(doc) and \
+                type(e).__name__ == 'DiffXSectionOrderError':
+            obs.count('tolerance:writer_rejects_fileless_change')
+            return
         obs.violation('writer_scope:rejected_container_call_changes_later_'
                       'behaviour:%s' % type(e).__name__, doc, repr(e)[:200])
         return
     obs.count('rejected_container_calls_injected', n_rej)
     obs.case(('rej', repr(doc)), nontrivial=n_rej > 0)
-    if stream.getvalue() != want:
+    if not common.bytes_equivalent(stream.getvalue(), want, layout)[0]:
         obs.violation('writer_scope:rejected_container_call_changes_later_'
                       'bytes', doc)
 
@@ -447,6 +456,10 @@ def check_dom_writer(doc, obs):
     try:
         data = recipe_to_tree(doc).to_bytes()
     except Exception as e:
+        if has_fileless_change(doc) and \
+                type(e).__name__ == 'DiffXSectionOrderError':
+            obs.count('tolerance:writer_rejects_fileless_change')
+            return
         obs.violation('dom_writer_scope:raised:%s' % common.exc_mechanism(e),
                       doc, repr(e)[:200])
         return
@@ -454,6 +467,8 @@ def check_dom_writer(doc, obs):
     # statistics read the diff as it is, whatever the containers declare
     try:
         from pydiffx.dom import DiffX
+        if has_fileless_change(doc):
+            raise StopIteration
         t = DiffX.from_bytes(want)
         t.generate_stats()
         for c in t.changes:
@@ -467,11 +482,13 @@ def check_dom_writer(doc, obs):
                             'encoding', doc, {'stats': st,
                                               'file_encoding': fs.encoding})
                         return
+    except StopIteration:
+        pass
     except Exception as e:
         obs.violation('dom_stats_scope:raised:%s' % common.exc_mechanism(e),
                       doc, repr(e)[:200])
         return
-    if data != want:
+    if not common.bytes_equivalent(data, want, layout)[0]:
         i = next((j for j in range(min(len(data), len(want)))
                   if data[j] != want[j]), min(len(data), len(want)))
         sec = [s for s in layout if s['hoff'] <= i][-1]
@@ -494,7 +511,7 @@ def check_fileless(doc, obs):
     stream = MonitoredStream()
     try:
         recipe.run_writer(recipe.writer_calls(doc), stream)
-        if stream.getvalue() != want:
+        if not common.bytes_equivalent(stream.getvalue(), want, layout)[0]:
             obs.violation('writer_scope:bytes_differ_in:fileless_change_doc',
                           doc)
     except DiffXSectionOrderError:
